@@ -156,6 +156,10 @@ finding(
     "P64", ["C13"], "open", "sync_properties with two pairs in one call: the node copied from the input keeps the INPUT's location; when the second pair's output path equals the first pair's input path (same class/attribute names in both modules) the copied node is rewritten instead of the real target (found by the thorough tier)",
     witnesses={"C13": [{'isrc': 'from typing import *\n\nclass A(object):\n    a: int = 1\n\n    def a_m(self, a):\n        return 1\n\nclass A00000000(object):\n    a00: int = 1\n\n    def a(self, a):\n        return 1\n\n', 'osrc': 'from typing import *\n\nclass A(object):\n    a: int = 1\n    b: int = 1\n    c: int = 1\n\n    def a_m(self, b, c, *, a):\n        return 1\n\nclass A00000000(object):\n    a00: int = 1\n\n    def a(self, a):\n        return 1\n\n', 'pairs': [[['A00000000.a00', 'attr', ['a00', 'int', '1'], {'idx': 0, 'names': ['a00'], 'hasdef': True, 'first': None}], ['A.b', 'attr', ['b', 'int', '1'], {'idx': 1, 'names': ['a', 'b', 'c'], 'hasdef': True, 'first': None}]], [['A.a', 'attr', ['a', 'int', '1'], {'idx': 0, 'names': ['a'], 'hasdef': True, 'first': None}], ['A00000000.a00', 'attr', ['a00', 'int', '1'], {'idx': 0, 'names': ['a00'], 'hasdef': True, 'first': None}]]], 'eval': False, 'wrap': None, 'multi': True}]},
 )
+finding(
+    "P66", ["C16"], "fixed", "gen_routes raises KeyError('doc') for a model whose column before the primary key is described nowhere (no doc=, no comment=, no :cvar)", "8930c05",
+    witnesses={"C16": [{"app": "app", "models": [{"cls": "User", "cols": [{"default": None, "fk": False, "name": "sv", "nodoc": True, "nullable": True, "typ": "bool"}, {"default": None, "fk": False, "name": "uq", "nodoc": False, "nullable": True, "typ": "str"}], "crud": "RD", "doc_cols": False, "emitted": False, "multi": False, "pk": "none", "pk_name": None, "tbl": "user", "tbl_kind": "titlecase"}], "prefix": "/v1/things"}]},
+)
 finding("P26", ["C07"], "open", "doctrans drops comments inside a rewritten multi-line def header")
 finding("P27", ["C07"], "open", "doctrans turns a one-line `def f(a=1): return a` into invalid Python")
 finding("P28", ["C07"], "open", "doctrans does not recognise a raw docstring r\"\"\"...\"\"\": a second string is inserted")
